@@ -168,7 +168,10 @@ func (d *decompressor) ReadByte() (byte, error) {
 // lazyBlock conditionally creates a ready to use Block.
 func (d *decompressor) lazyBlock() {
 	if d.blk == nil {
-		if w, ok := d.owner.cache.(Wrapper); ok {
+		d.owner.mu.RLock()
+		cache := d.owner.cache
+		d.owner.mu.RUnlock()
+		if w, ok := cache.(Wrapper); ok {
 			d.blk = w.Wrap(&block{owner: d.owner})
 		} else {
 			d.blk = &block{owner: d.owner}
